@@ -269,10 +269,16 @@ fn run_op(cx: &mut Ctx, spec: OpSpec, body: impl FnOnce(&mut Ctx) -> Out) -> Out
     if let Some(f) = spec.fuse {
         writeln!(cx.out, "F {}", f).unwrap();
     }
+    if spec.slots.iter().any(|s| cx.poisoned[*s]) {
+        // the destination of an interrupted clone_from: which of the leaked clones are dropped
+        // when is unspecified
+        writeln!(cx.out, "X").unwrap();
+    }
     arm(spec.fuse);
     let r = catch_unwind(AssertUnwindSafe(|| body(cx)));
     let c = disarm();
     cx.grave.clear();
+    exhume();
     cx.tab_allocs += c.allocs;
     cx.tab_frees += c.frees;
     let out = match r {
@@ -319,6 +325,67 @@ fn run_op(cx: &mut Ctx, spec: OpSpec, body: impl FnOnce(&mut Ctx) -> Out) -> Out
         };
         let tight = b.main_cap == b.main_len;
         cx.classes.insert(format!("{}|{}|loc{}|full{}", phase, spec.kind, loc, tight as u8));
+    }
+    // ---- C07: the state a caught user panic leaves behind
+    if cx.monitors && out == Out::P("user".into()) {
+        for &s in &spec.slots {
+            let dest_of_clone_from = spec.kind == "clonefrom" && s == spec.slots[0];
+            if let (Some(m), Some(rf)) = (cx.maps[s].as_ref(), cx.refs[s].as_ref()) {
+                let st = m.verif_state();
+                let mut seen: Vec<(u64, u64, u64)> = Vec::new();
+                let mut n_iter = 0usize;
+                for (k, v) in m.iter() {
+                    n_iter += 1;
+                    seen.push((k.class, k.id, v.get()));
+                }
+                if m.len() != n_iter || m.len() != st.main_len + st.old.map_or(0, |o| o.0) {
+                    vio("C07", format!("after a caught panic in [{}]: len() {} but {} entries are iterated ({} + {} stored)", spec.toks, m.len(), n_iter, st.main_len, st.old.map_or(0, |o| o.0)));
+                }
+                if let Some((ol, _, cur)) = st.old {
+                    if ol != cur {
+                        vio("C07", format!("after a caught panic in [{}]: the cached iterator believes {} left, the old table holds {}", spec.toks, cur, ol));
+                    }
+                }
+                let mut keys = std::collections::BTreeSet::new();
+                for (k, _, _) in &seen {
+                    if !keys.insert(*k) {
+                        vio("C07", format!("after a caught panic in [{}]: key {} is iterated twice", spec.toks, k));
+                    }
+                }
+                if dest_of_clone_from || cx.poisoned[s] {
+                    continue; // contents unspecified (documented)
+                }
+                for (k, kid, v) in &seen {
+                    let probe = K::new(*k, 0);
+                    match m.get_key_value(&probe) {
+                        Some((kk, vv)) if kk.id == *kid && vv.get() == *v => {}
+                        _ => vio("C07", format!("after a caught panic in [{}]: iterated element {} is not found by get", spec.toks, k)),
+                    }
+                    let own = spec.key == Some(*k);
+                    match rf.get(k) {
+                        None if own => {}
+                        None => vio("C07", format!("after a caught panic in [{}]: element {} appeared from nowhere", spec.toks, k)),
+                        Some((okid, ov)) => {
+                            let values_fixed = matches!(spec.kind, "ins" | "reserve" | "tryreserve" | "clone" | "shrink") || (matches!(spec.kind, "entry" | "rawentry") && !own);
+                            if !own && okid != kid {
+                                vio("C07", format!("after a caught panic in [{}]: element {} holds a key object it never had", spec.toks, k));
+                            }
+                            if values_fixed && !own && ov != v {
+                                vio("C07", format!("after a caught panic in [{}]: element {} holds value {} it never had (was {})", spec.toks, k, v, ov));
+                            }
+                        }
+                    }
+                }
+                // elements are lost only where documented: one element being relocated (Hash),
+                // or the element handed to the panicking closure
+                if matches!(spec.kind, "ins" | "entry" | "rawentry" | "reserve" | "tryreserve" | "clone") {
+                    let lost: Vec<u64> = rf.keys().cloned().filter(|k| !keys.contains(k) && spec.key != Some(*k)).collect();
+                    if lost.len() > 1 {
+                        vio("C07", format!("after a caught panic in [{}]: {} elements were lost ({:?}...), at most the one being relocated may be", spec.toks, lost.len(), &lost[..2]));
+                    }
+                }
+            }
+        }
     }
     // ---- monitors (the property statements, checked on the real crate)
     if cx.monitors {
@@ -459,7 +526,14 @@ fn run_op(cx: &mut Ctx, spec: OpSpec, body: impl FnOnce(&mut Ctx) -> Out) -> Out
 
 fn op_new(cx: &mut Ctx, s: usize, hb: HB, cap: usize) {
     let spec = OpSpec { toks: format!("new {} {} {}", s, hb.id, cap), kind: "new", slots: vec![s], pslot: None, fuse: None, key_adding: false, readonly: false, key: None };
-    cx.maps[s] = None;
+    if cx.maps[s].is_some() {
+        // an unrecorded drop of the map that was there: its deallocations still count
+        arm(None);
+        cx.maps[s] = None;
+        let c = disarm();
+        cx.tab_allocs += c.allocs;
+        cx.tab_frees += c.frees;
+    }
     cx.refs[s] = Some(Ref::new());
     cx.poisoned[s] = false;
     run_op(cx, spec, move |cx| {
@@ -900,12 +974,11 @@ fn op_drain_filter(cx: &mut Ctx, s: usize, take: Vec<u64>, delta: u64, j: Option
             ts.contains(&k.class)
         });
         let mut n = 0u64;
-        let mut held: Vec<(K, V)> = Vec::new();
         while j.map_or(true, |j| n < j) {
             match it.next() {
                 Some((k, v)) => {
                     got.push((k.class, k.id, v.get()));
-                    held.push((k, v));
+                    bury((k, v));
                     n += 1;
                 }
                 None => break,
@@ -916,7 +989,6 @@ fn op_drain_filter(cx: &mut Ctx, s: usize, take: Vec<u64>, delta: u64, j: Option
         } else {
             drop(it);
         }
-        cx.grave.push(Box::new(held));
         Out::L(got)
     });
     if fuse.is_some() {
@@ -988,7 +1060,6 @@ fn op_drain(cx: &mut Ctx, s: usize, j: u64, forget: bool) -> Out {
         let n = m.len();
         let mut it = m.drain();
         let mut got = Vec::new();
-        let mut held: Vec<(K, V)> = Vec::new();
         for i in 0..j as usize {
             if it.len() != n - i.min(n) {
                 problems.push(format!("drain len {} after {} of {}", it.len(), i, n));
@@ -996,7 +1067,7 @@ fn op_drain(cx: &mut Ctx, s: usize, j: u64, forget: bool) -> Out {
             match it.next() {
                 Some((k, v)) => {
                     got.push((k.class, k.id, v.get()));
-                    held.push((k, v));
+                    bury((k, v));
                 }
                 None => break,
             }
@@ -1006,7 +1077,6 @@ fn op_drain(cx: &mut Ctx, s: usize, j: u64, forget: bool) -> Out {
         } else {
             drop(it);
         }
-        cx.grave.push(Box::new(held));
         Out::L(got)
     });
     if cx.monitors {
@@ -1039,7 +1109,6 @@ fn op_into_iter(cx: &mut Ctx, s: usize, j: u64) -> Out {
         let n = m.len();
         let mut it = m.into_iter();
         let mut got = Vec::new();
-        let mut held: Vec<(K, V)> = Vec::new();
         for i in 0..j as usize {
             if it.len() != n - i.min(n) {
                 problems.push(format!("into_iter len {} after {} of {}", it.len(), i, n));
@@ -1047,7 +1116,7 @@ fn op_into_iter(cx: &mut Ctx, s: usize, j: u64) -> Out {
             match it.next() {
                 Some((k, v)) => {
                     got.push((k.class, k.id, v.get()));
-                    held.push((k, v));
+                    bury((k, v));
                 }
                 None => {
                     if it.next().is_some() {
@@ -1058,7 +1127,6 @@ fn op_into_iter(cx: &mut Ctx, s: usize, j: u64) -> Out {
             }
         }
         drop(it);
-        cx.grave.push(Box::new(held));
         Out::L(got)
     });
     if cx.monitors {
@@ -1133,7 +1201,14 @@ fn op_from_iter(cx: &mut Ctx, s: usize, hb: HB, keys: Vec<u64>, hint: usize) {
     }
     let spec = OpSpec { toks, kind: "fromiter", slots: vec![s], pslot: None, fuse: None, key_adding: false, readonly: false, key: None };
     let objs: Vec<(K, V)> = items.iter().map(|(k, kid, v)| (K::new(*k, *kid), V::new(*v))).collect();
-    cx.maps[s] = None;
+    if cx.maps[s].is_some() {
+        // an unrecorded drop of the map that was there: its deallocations still count
+        arm(None);
+        cx.maps[s] = None;
+        let c = disarm();
+        cx.tab_allocs += c.allocs;
+        cx.tab_frees += c.frees;
+    }
     cx.poisoned[s] = false;
     run_op(cx, spec, move |cx| {
         // FromIterator needs S: Default; build it the way from_iter does
@@ -1163,7 +1238,7 @@ fn op_from_iter(cx: &mut Ctx, s: usize, hb: HB, keys: Vec<u64>, hint: usize) {
 }
 
 fn op_clone(cx: &mut Ctx, s: usize, d: usize, fuse: Option<u64>) -> Out {
-    let spec = OpSpec { toks: format!("clone {} {}", s, d), kind: "clone", slots: vec![s, d], pslot: None, fuse, key_adding: false, readonly: false, key: None };
+    let spec = OpSpec { toks: format!("clone {} {}", s, d), kind: "clone", slots: vec![s, d], pslot: if fuse.is_some() { Some(s) } else { None }, fuse, key_adding: false, readonly: false, key: None };
     cx.maps[d] = None;
     let src_before = cx.maps[s].as_ref().map(dump_str);
     let out = run_op(cx, spec, |cx| {
@@ -1191,7 +1266,7 @@ fn op_clone(cx: &mut Ctx, s: usize, d: usize, fuse: Option<u64>) -> Out {
 }
 
 fn op_clone_from(cx: &mut Ctx, d: usize, s: usize, fuse: Option<u64>) -> Out {
-    let spec = OpSpec { toks: format!("clonefrom {} {}", d, s), kind: "clonefrom", slots: vec![d, s], pslot: None, fuse, key_adding: false, readonly: false, key: None };
+    let spec = OpSpec { toks: format!("clonefrom {} {}", d, s), kind: "clonefrom", slots: vec![d, s], pslot: if fuse.is_some() { Some(s) } else { None }, fuse, key_adding: false, readonly: false, key: None };
     let src_before = cx.maps[s].as_ref().map(dump_str);
     let out = run_op(cx, spec, |cx| {
         let (a, b) = if d < s {
@@ -1207,6 +1282,7 @@ fn op_clone_from(cx: &mut Ctx, d: usize, s: usize, fuse: Option<u64>) -> Out {
     if matches!(out, Out::P(_)) {
         // interrupted: contents unspecified, possibly filed under the other hasher
         cx.poisoned[d] = true;
+        cx.bump("clonefrom_interrupted");
         resync_ref(cx, d);
         return out;
     }
@@ -1754,10 +1830,12 @@ fn main() {
         }
         cx.grave.clear();
         let live = LIVE.with(|l| l.borrow().len());
-        if cx.monitors && live != cx.stats.get("forgotten").cloned().unwrap_or(0) as usize && cx.stats.get("forgotten").is_none() && live != 0 {
+        let leak_ok = cx.stats.get("forgotten").is_some() || cx.stats.get("clonefrom_interrupted").is_some();
+        if cx.monitors && !leak_ok && live != 0 {
             vio("C06", format!("{} objects still alive after every map and iterator was dropped", live));
         }
         if cx.monitors && cx.stats.get("forgotten").is_none() && cx.tab_allocs != cx.tab_frees {
+            // (table memory is released even after an interrupted clone_from)
             vio("C06", format!("{} table allocations but {} deallocations by the end of the history (every map and iterator dropped)", cx.tab_allocs, cx.tab_frees));
         }
         LIVE.with(|l| l.borrow_mut().clear());
